@@ -406,10 +406,16 @@ def _run_sequence(job):
         base = dict(name="c08-seq", grid_n=3, n_mazes=6, seed=11, maze_ctor=GENERATORS_MAP["gen_dfs"])
         seq = {"pl_tc": [("path_length", dict(min_length=ml)), ("truncate_count", dict(max_count=mc))],
                "tc_pl": [("truncate_count", dict(max_count=mc)), ("path_length", dict(min_length=ml))],
-               "pl_dup_tc": [("path_length", dict(min_length=ml)), ("remove_duplicates_fast", {}), ("truncate_count", dict(max_count=mc))]}[job["seq"]]
+               "pl_dup_tc": [("path_length", dict(min_length=ml)), ("remove_duplicates_fast", {}), ("truncate_count", dict(max_count=mc))],
+               # the same filter twice in a row with identical arguments: both applications are part of the history and must both be recorded
+               "tc_tc": [("truncate_count", dict(max_count=mc)), ("truncate_count", dict(max_count=mc))],
+               "pl_pl_tc": [("path_length", dict(min_length=ml)), ("path_length", dict(min_length=ml)), ("truncate_count", dict(max_count=mc))]}[job["seq"]]
         cfg_f = MazeDatasetConfig(**base, applied_filters=[dict(name=n, args=(), kwargs=dict(k)) for n, k in seq])
         cfg_before = json.dumps(_js(cfg_f.serialize()), sort_keys=True, default=str)
-        via_cfg = MazeDataset.from_config(cfg_f, load_local=False, save_local=False, do_download=False)
+        try:
+            via_cfg = MazeDataset.from_config(cfg_f, load_local=False, save_local=False, do_download=False)
+        except Exception as e:
+            return [(f"the config-driven entry point applies the configured filter list (raised {type(e).__name__})", z3.BoolVal(False))]
         by_hand = MazeDataset.generate(MazeDatasetConfig(**base), gen_parallel=False)
         lens0 = _lengths(by_hand)
         raw = [(m.connection_list.copy(), np.asarray(m.solution).copy()) for m in by_hand.mazes]
@@ -443,7 +449,7 @@ def _seq_oracle(seq, lens, raw, ml, mc):
     def rank(alive, i):  # number of alive mazes before i
         return z3.Sum([z3.If(alive[j], 1, 0) for j in range(i)]) if i else z3.IntVal(0)
 
-    steps = {"pl_tc": ["pl", "tc"], "tc_pl": ["tc", "pl"], "pl_dup_tc": ["pl", "dup", "tc"]}[seq]
+    steps = {"pl_tc": ["pl", "tc"], "tc_pl": ["tc", "pl"], "pl_dup_tc": ["pl", "dup", "tc"], "tc_tc": ["tc", "tc"], "pl_pl_tc": ["pl", "pl", "tc"]}[seq]
     for st in steps:
         if st == "pl":
             alive = [z3.And(a, z3.IntVal(lens[i]) >= ml) for i, a in enumerate(alive)]
@@ -466,10 +472,16 @@ def _replay_sequence(job, inputs, notes):
     base = dict(name="c08-seq", grid_n=3, n_mazes=6, seed=11, maze_ctor=GENERATORS_MAP["gen_dfs"])
     seq = {"pl_tc": [("path_length", dict(min_length=ml)), ("truncate_count", dict(max_count=mc))],
            "tc_pl": [("truncate_count", dict(max_count=mc)), ("path_length", dict(min_length=ml))],
-           "pl_dup_tc": [("path_length", dict(min_length=ml)), ("remove_duplicates_fast", {}), ("truncate_count", dict(max_count=mc))]}[job["seq"]]
+           "pl_dup_tc": [("path_length", dict(min_length=ml)), ("remove_duplicates_fast", {}), ("truncate_count", dict(max_count=mc))],
+           # the same filter twice in a row with identical arguments: both applications are part of the history and must both be recorded
+           "tc_tc": [("truncate_count", dict(max_count=mc)), ("truncate_count", dict(max_count=mc))],
+           "pl_pl_tc": [("path_length", dict(min_length=ml)), ("path_length", dict(min_length=ml)), ("truncate_count", dict(max_count=mc))]}[job["seq"]]
     cfg_f = MazeDatasetConfig(**base, applied_filters=[dict(name=n, args=(), kwargs=dict(k)) for n, k in seq])
     before = json.dumps(_js(cfg_f.serialize()), sort_keys=True, default=str)
-    via_cfg = MazeDataset.from_config(cfg_f, load_local=False, save_local=False, do_download=False)
+    try:
+        via_cfg = MazeDataset.from_config(cfg_f, load_local=False, save_local=False, do_download=False)
+    except Exception as e:
+        return f"filter-from-config | sequence {[(n, k) for n, k in seq]}: from_config raised {type(e).__name__}: {str(e)[:120]}"
     gen = MazeDataset.generate(MazeDatasetConfig(**base), gen_parallel=False)
     lens = _lengths(gen)
     idx = list(range(len(lens)))
@@ -572,7 +584,7 @@ def jobs(tier, seed):
             out.append(dict(h="filter", filter="cut_percentile_shortest", ds=ds, p=p))
     for ds in (["dups", "chain", "short"] if q else ["dups", "chain", "short", "equal_lengths", "perc3", "dfs2"]):
         out.append(dict(h="filter", filter="remove_duplicates", ds=ds, max_seconds=3300))
-    for s in (["pl_tc", "pl_dup_tc"] if q else ["pl_tc", "tc_pl", "pl_dup_tc"]):
+    for s in (["pl_tc", "pl_dup_tc", "tc_tc"] if q else ["pl_tc", "tc_pl", "pl_dup_tc", "tc_tc", "pl_pl_tc"]):
         out.append(dict(h="sequence", seq=s, max_seconds=3300))
     for ds in (["dfs4", "perc3"] if q else ["dfs4", "perc3", "dfs2"]):
         for inplace in (True, False):
@@ -593,7 +605,7 @@ META = dict(
     bounds=dict(
         quick="filter parameters symbolic integers (min_length, min_distance, max_count in [-1/0, max+2]; both duplicate thresholds symbolic or None) over 5 concrete "
               "datasets built at check time (gen_dfs 4x4 x7, gen_dfs_percolation 3x3 x8, hand-built 3x3 sets with exact/near duplicates at first/middle/last position, "
-              "all-equal lengths, length-1 solutions); percentile in {0,10,50,100}; filter sequences of length 2 and 3 through from_config with two symbolic parameters",
+              "all-equal lengths, length-1 solutions); percentile in {0,10,50,100}; filter sequences of length 2 and 3 (incl. the same filter twice in a row with identical arguments) through from_config with two symbolic parameters",
         thorough="7 datasets, percentile in {0,10,25,50,90,100}, three sequences, duplicate thresholds on 6 datasets",
     ),
     degenerate=dict(sequence="parameters forked over their range (the config-driven entry point renders them to JSON text)", cut_percentile_shortest="percentile is a concrete grid (np.percentile is C code)", remove_duplicates_fast="no parameter", meta="no symbolic input"),
